@@ -7,13 +7,16 @@ compiler state it explores is exactly that of a user session.  No compiler state
 
 spec = {
   "moddir":  directory with c11_<key>.py module files,
-  "letters": {name: [module key, build arg]},
+  "letters": {name: [module key, build arg]}   (module key "@<dotted module>" = upstream reference design
+             under <cohdl tree>/tests, imported with cocotb stubbed, last module-level test_* entity class),
   "order":   [letter names]  (alphabet order used for the tree),
   "mode":    "reuse" (a module is imported once per interpreter, the same class object is compiled again)
            | "fresh" (every compilation imports a new copy of the module file),
   "prefix":  [letter names] compiled first in this process (no fork),
   "depth":   maximal history length (>= len(prefix)); the subtree below the prefix is explored with os.fork(),
   "golden":  {name: {"ok": bool, "text": str | None, "exc": str | None}} | None  (None: record full outputs),
+  "golden_file": path of a json file with the golden table (alternative to "golden"),
+  "count_prefix": false -> the prefix nodes are executed but not counted/compared (they belong to another task),
   "prealloc": number of objects allocated (and kept alive) before importing cohdl / the design,
   "record":  bool  -> also return the complete outcome of every prefix compilation (golden/variant runs)
 }
@@ -43,6 +46,64 @@ def _prealloc(n):
     _KEEP.append(junk)
 
 
+_STUBS = ["cocotb", "cocotb.clock", "cocotb.triggers", "cocotb.binary", "cocotb_test", "cocotb_test.simulator",
+          "cocotbext", "cocotbext.axi", "cocotbext.spi", "cocotbext.uart", "cocotb.types", "cocotb.handle",
+          "cocotb.utils", "cocotb.result"]
+
+
+class _Any:
+    def __init__(self, *a, **k):
+        pass
+
+    def __call__(self, *a, **k):
+        if len(a) == 1 and callable(a[0]) and not k:
+            return a[0]
+        return _Any()
+
+    def __getattr__(self, n):
+        return _Any()
+
+    def __mro_entries__(self, bases):
+        return (object,)
+
+
+def _corpus_setup():
+    """make the upstream reference designs importable without cocotb (test benches are never run)"""
+    if _MODS.get("@setup"):
+        return
+    import types
+    import cohdl
+
+    tests = os.path.join(os.path.dirname(os.path.dirname(os.path.abspath(cohdl.__file__))), "tests")
+    sys.path.insert(0, tests)
+    for name in _STUBS:
+        m = types.ModuleType(name)
+
+        def _ga(n):
+            if n.startswith("__"):
+                raise AttributeError(n)
+            return _Any()
+
+        m.__getattr__ = _ga
+        m.__path__ = []
+        sys.modules[name] = m
+    _MODS["@setup"] = True
+
+
+def _corpus_entity(modname):
+    import importlib
+    import cohdl
+
+    _corpus_setup()
+    m = importlib.import_module(modname)
+    own = [(k, v) for k, v in vars(m).items()
+           if isinstance(v, type) and issubclass(v, cohdl.Entity) and v.__module__ == m.__name__]
+    ents = [v for k, v in own if k.startswith("test_")] or [v for k, v in own]
+    if not ents:
+        raise LookupError("no module-level entity class")
+    return ents[-1]
+
+
 def _load(spec, key):
     path = os.path.join(spec["moddir"], "c11_%s.py" % key)
     if spec["mode"] == "reuse":
@@ -67,8 +128,11 @@ def compile_letter(spec, letter):
 
     key, arg = spec["letters"][letter]
     try:
-        mod = _load(spec, key)
-        ent = mod.build(arg)
+        if key.startswith("@"):
+            ent = _corpus_entity(key[1:])
+        else:
+            mod = _load(spec, key)
+            ent = mod.build(arg)
         text = std.VhdlCompiler.to_string(ent)
         if not isinstance(text, str):
             return {"ok": False, "text": None, "exc": "<non-str result>", "msg": repr(type(text))}
@@ -95,12 +159,12 @@ def compare(golden, letter, out):
         if out["ok"]:
             if out["text"] == g["text"]:
                 return None
-            return {"kind": "altered", "sig": "altered", "detail": _first_diff(g["text"], out["text"]),
+            return {"kind": "altered", "sig": "accepted with different bytes", "detail": _first_diff(g["text"], out["text"]),
                     "sha": hashlib.sha1(out["text"].encode()).hexdigest()[:12]}
         return {"kind": "prevented", "sig": "rejected:%s:%s" % (out["exc"], out["msg"]), "detail": None}
     # golden: rejected.  Oracle = rejected again with the same exception class (message may differ)
     if out["ok"]:
-        return {"kind": "accepted_after", "sig": "accepted", "detail": None,
+        return {"kind": "accepted_after", "sig": "accepted (golden: rejected %s)" % g["exc"], "detail": None,
                 "sha": hashlib.sha1(out["text"].encode()).hexdigest()[:12]}
     if out["exc"] != g["exc"]:
         return {"kind": "other_exception", "sig": "rejected:%s:%s (golden %s)" % (out["exc"], out["msg"], g["exc"]),
@@ -188,6 +252,10 @@ def main():
     spec_path, result_path = sys.argv[1], sys.argv[2]
     with open(spec_path) as f:
         spec = json.load(f)
+    if spec.get("golden_file"):
+        with open(spec["golden_file"]) as f:
+            allg = json.load(f)
+        spec["golden"] = {k: allg[k] for k in spec["letters"]}
     # keep the result channel clean whatever the compiler prints
     devnull = os.open(os.devnull, os.O_WRONLY)
     os.dup2(devnull, 1)
@@ -209,7 +277,8 @@ def main():
         # a prefix node is shared by several tasks; it is counted by the task whose remaining
         # prefix letters are all the first letter of the alphabet
         owned = all(x == order[0] for x in prefix[d + 1:])
-        out = visit(spec, hist, letter, stats, counted=owned or spec.get("golden") is None)
+        out = visit(spec, hist, letter, stats,
+                    counted=(owned and spec.get("count_prefix", True)) or spec.get("golden") is None)
         if spec.get("record"):
             recorded.append({"letter": letter, **out})
         hist.append(letter)
